@@ -675,6 +675,9 @@ func body(t *testing.T, c *vk.Ctx) {
 		replay(t, c)
 		return
 	}
+	if c.Shard == c.NShards-1 {
+		partReceive(t, c)
+	}
 	scs := scenarios(c)
 	c.Bound("scenarios", len(scs))
 	for i, sc := range scs {
@@ -768,10 +771,20 @@ func replay(t *testing.T, c *vk.Ctx) {
 		Case struct {
 			Scenario scenario `json:"scenario"`
 			Choices  []int    `json:"choices"`
+			Part     string   `json:"part"`
+			K        int      `json:"k"`
 		} `json:"case"`
 	}
 	if err := vk.ReadJSON(c.Replay, &rf); err != nil {
 		c.Broken("replay file: %v", err)
+		return
+	}
+	if rf.Case.Part == "receive" {
+		c.Distinct("distinct", "replay-receive")
+		c.Count("executions", 1)
+		if what := receiveCase(t, rf.Case.K); what != "" {
+			c.Violation("receive-side:"+what, fmt.Sprintf("replayed: a stuck object received %d head updates over one stream, then a healthy object one: %s", rf.Case.K, what), map[string]any{"part": "receive", "k": rf.Case.K})
+		}
 		return
 	}
 	ex := &sched.Explorer{T: t, Horizon: 600}
